@@ -1273,11 +1273,13 @@ pub fn run_c16_processes(tier: &str, batch_seed: u64) -> LayerBResult {
                 if diverged.is_none() && first.starts_with("exit=Some(0)") {
                     let cell = Cell { mode: "run".into(), require: None, no_std: false, target: String::new(), peer: "P5-fails-without-reading".into(), input: "present".into(), spelling: "absolute".into(), fault: None };
                     let see = |o: &ProcObs| format!("exit={:?}\n{}", o.exit, normalise(&root, &strip_ansi(&String::from_utf8_lossy(&o.stdout))));
+                    // the schedule of the two processes is the simulator's choice: the peer gives up at once, or after
+                    // 40, 150 or 600 ms - before, while or after sylt writes the program to it
                     let a = see(&runner.run_cell(&prog, &cell, &root, &[]));
-                    for _ in 0..3 {
-                        let b = see(&runner.run_cell(&prog, &cell, &root, &[]));
+                    for delay in ["40", "150", "600"] {
+                        let b = see(&runner.run_cell(&prog, &cell, &root, &[("SYLT_SIM_LUA_DELAY_MS".to_string(), delay.to_string())]));
                         if a != b {
-                            diverged = Some(format!("run mode, lua fails without reading its input: {}", crate::props::first_diff(&a, &b)));
+                            diverged = Some(format!("run mode, lua fails without reading its input, at once vs after {} ms: {}", delay, crate::props::first_diff(&a, &b)));
                             break;
                         }
                     }
